@@ -51,6 +51,11 @@ class C03(Cfg):
         path = os.path.join(work, "hist_C03.ops")
         lib.sh([dv, "gen", "--prop", "C03", "--seed", str(seed), "--n", str(n), "--len", str(ln), "--out", path], check=True)
         res.append(("histories C03 seed=%d n=%d" % (seed, n), path, False))
+        # deletions racing with pulls (the paths repaired for #18): after quiescence same rows, records and references
+        n = 6 if tier == "quick" else 200
+        path = os.path.join(work, "del_C03.ops")
+        lib.sh([dv, "gen", "--prop", "C11del", "--seed", str(seed + 5), "--n", str(n), "--out", path], check=True)
+        res.append(("deletion scenarios seed=%d n=%d" % (seed + 5, n), path, False))
         # every arrival order: all sequences of k directed pulls among three peers after the same concurrent writes
         bases, k = (1, 2) if tier == "quick" else (3, 3)
         path = os.path.join(work, "orders_C03.ops")
